@@ -26,7 +26,7 @@ REQUIRED_REACH = ['ConversionSurfaceMCNPToT4.py:convert_cone',
                   'ConversionSurfaceMCNPToT4.py:convert_special_quadric',
                   'VectUtils.py:planeParamsFromPoints']
 
-_PER = {'quick': 4, 'thorough': 60}
+_PER = {'quick': 4, 'thorough': 300}
 
 
 def attach_monitors():
